@@ -102,6 +102,11 @@ def layouts(tier):
     out.append({'id': 'zeros', 'subs': [sg('ZER', 'NONE', 36000 + F(1, 2), 360000 + F(1, 4), 5, 6, 150, 150, 'zero', 0),
                                          sg('LIN', 'NONE', 72000, 400000, 7, 6, 300, 300, 'zeroline', 1)]})
     out.append({'id': 'tiny-shifts', 'subs': [sg('TNY', 'NONE', -108000, -540000, 4, 5, 150, 150, 'tiny', 0)]})
+    # non-finite "no data" nodes (NaN, +inf, -inf) in a few nodes of a grid: every cell that does not touch them is unaffected
+    out.append({'id': 'nodata-nodes', 'subs': [dict(sg('PAR', 'NONE', -108000, -540000, 9, 10, 600, 600, 'linear', 0),
+                                                    poison=[(0, 9, float('nan')), (4, 0, float('inf')), (8, 5, float('-inf')), (4, 9, float('nan'))]),
+                                               dict(sg('CHD', 'PAR', -108000 + 1200, -540000 + 1800, 11, 11, 120, 120, 'linear', 2),
+                                                    poison=[(10, 10, float('nan')), (5, 0, float('nan'))])]})
     # PARENT records that do not mirror the geometry: a grid nested three deep whose two inner grids are both declared children of
     # the outermost; a dense grid lying inside a coarse one with BOTH declared top-level.  The finest containing sub-grid answers.
     out.append({'id': 'flat-hierarchy', 'subs': [sg('TOP', 'NONE', -108000, -540000, 6, 7, 600, 600, 'linear', 0),
@@ -161,7 +166,7 @@ def materialise(lay, tag):
     if chk['num_file'] != len(subs) or chk['end'] != b'END':
         raise HarnessError('generated NTv2 file failed the independent reader')
     for s, a, c in zip(subs, arrays, chk['sub']):
-        if c['name'] != s['name'] or c['count'] != a.shape[0] * a.shape[1] or not np.array_equal(c['values'], a.reshape(-1, 4)):
+        if c['name'] != s['name'] or c['count'] != a.shape[0] * a.shape[1] or not np.array_equal(c['values'], a.reshape(-1, 4), equal_nan=True):
             raise HarnessError('generated NTv2 file does not reproduce the generator arrays')
     return path, subs, arrays
 
@@ -198,6 +203,12 @@ def truth(s, arr, lat, lon, method):
     vals, spans = [], []
     exact_poly = (s['kind'] in ('constant', 'linear')) or (method == 'bicubic' and s['kind'] == 'biquadratic')
     at_node = (y in (0, 1)) and (x in (0, 1))
+    # non-finite no-data nodes: a cell whose own nodes (bilinear: 4; bicubic: the 4 x 4 around it) are all finite must be answered
+    # from them alone; cells that touch a non-finite node are not judged
+    rr0, rr1 = (r0, r0 + 2) if method == 'bilinear' else (max(r0 - 1, 0), min(r0 + 3, nrows))
+    cc0, cc1 = (c0, c0 + 2) if method == 'bilinear' else (max(c0 - 1, 0), min(c0 + 3, ncols))
+    if not np.all(np.isfinite(arr[rr0:rr1, cc0:cc1, :])):
+        return [None] * 4, [0.0] * 4, (r0, c0)
     for k in range(4):
         n1, n2, n3, n4 = (F(float(arr[r0, c0, k])), F(float(arr[r0, c0 + 1, k])), F(float(arr[r0 + 1, c0, k])),
                           F(float(arr[r0 + 1, c0 + 1, k])))
@@ -335,7 +346,9 @@ def ev(case, rec):
                     rec.outcome('value-ok')
                     # the 2-D transformation: + latitude shift, - positive-west longitude shift; reverse the opposite
                     if tag == 'cell':
-                        for fwd in (True, False):
+                        # the direction flag in every form a caller holds it: the bool constants, numpy booleans (an element of a
+                        # boolean array / DataFrame column) and 1 / 0
+                        for fwd in (True, False, np.True_, np.False_, np.bool_(True), 1, 0):
                             st3, t = rec.call(ntv2_2d, grid, lat_deg, lon_deg, fwd, method)
                             sg_ = 1.0 if fwd else -1.0
                             exp = (lat_deg + sg_ * r[0] / 3600, lon_deg - sg_ * r[1] / 3600)
